@@ -1266,11 +1266,11 @@ func (r *qpRun) sendStreamFrame(st *qpStream, off int64, n int, fin bool, mode s
 		vs.G.Inc("gen.skipped_foreign_frame")
 		return
 	}
-	wasKnownHigh, wasLimit, wasRoom := st.high, st.limit, r.connRoom(st)
+	wasKnownHigh, wasLimit, wasRoom, wasSum, wasMaxData := st.high, st.limit, r.connRoom(st), r.m.sumHigh, r.m.maxData
 	dup := st.sent.covers(off, end) && n > 0
 	f := debugFrameStream{id: st.id, off: off, data: qpData(st.id, off, n), fin: fin}
 	r.peerSend(f)
-	desc := fmt.Sprintf("peer: %v [%s] (stream %s: received %d, limit %d, final %d; conn: sum %d, MAX_DATA %d)", f, mode, st.kind, wasKnownHigh, wasLimit, st.final, r.m.sumHigh, r.m.maxData)
+	desc := fmt.Sprintf("peer: %v [%s] (stream %s: received %d, limit %d, final %d; conn: sum %d, MAX_DATA %d)", f, mode, st.kind, wasKnownHigh, wasLimit, st.final, wasSum, wasMaxData)
 	r.flushLog(desc + " expect " + e.String())
 	r.nontrivial = true
 	r.probeFrame(e, end, wasLimit, wasRoom, dup, false)
@@ -1302,10 +1302,10 @@ func (r *qpRun) sendResetFrame(st *qpStream, fs int64, code uint64, mode string)
 		vs.G.Inc("gen.skipped_foreign_frame")
 		return
 	}
-	wasHigh, wasLimit, wasRoom := st.high, st.limit, r.connRoom(st)
+	wasHigh, wasLimit, wasRoom, wasSum, wasMaxData := st.high, st.limit, r.connRoom(st), r.m.sumHigh, r.m.maxData
 	f := debugFrameResetStream{id: st.id, code: code, finalSize: fs}
 	r.peerSend(f)
-	desc := fmt.Sprintf("peer: %v [%s] (stream %s: received %d, limit %d, final %d; conn: sum %d, MAX_DATA %d)", f, mode, st.kind, wasHigh, wasLimit, st.final, r.m.sumHigh, r.m.maxData)
+	desc := fmt.Sprintf("peer: %v [%s] (stream %s: received %d, limit %d, final %d; conn: sum %d, MAX_DATA %d)", f, mode, st.kind, wasHigh, wasLimit, st.final, wasSum, wasMaxData)
 	r.flushLog(desc + " expect " + e.String())
 	r.nontrivial = true
 	r.probeFrame(e, fs, wasLimit, wasRoom, false, true)
